@@ -7,13 +7,22 @@ import Hs.Lemmas.ZincRtCols
 namespace Hs.Zinc
 open Hs Hs.Scan Hs.Spell
 
-/-- a spelled meta dict (grid meta, column meta): absent, or a space and non-empty tags with ascending keys that
+/-- a spelled meta dict (grid meta, column meta): absent, or blanks and non-empty tags with ascending keys that
 frame in the sense `P` -/
 inductive MetaOkW (P : Tags → List UInt8 → Prop) : OTags → List UInt8 → Prop
   | none : MetaOkW P .none []
-  | some (k : List Char) (v : Val) (t' : Tags) (body : List UInt8)
+  | some (k : List Char) (v : Val) (t' : Tags) (w body : List UInt8) (hw : Blanks w) (hne : w ≠ [])
       (hs : keysSorted (Tags.cons k v t').keys = true) (h : P (.cons k v t') body) :
-      MetaOkW P (.some (.cons k v t')) (32 :: body)
+      MetaOkW P (.some (.cons k v t')) (w ++ body)
+
+theorem stop_blanks {P : UInt8 → Bool} (hP : P 32 = false ∧ P 9 = false) {w : List UInt8} (hw : Blanks w) (hne : w ≠ [])
+    (x : List UInt8) : Stop P (w ++ x) := by
+  cases w with
+  | nil => exact absurd rfl hne
+  | cons b w' =>
+    rcases Blanks.head hw with rfl | rfl
+    · exact Stop_cons hP.1
+    · exact Stop_cons hP.2
 
 theorem blanks_one : Blanks [32] := by
   intro b hb; simp only [List.mem_singleton] at hb; exact Or.inl hb
@@ -42,16 +51,17 @@ theorem col_stepW {term : UInt8} {ending after : List UInt8} (hE : EndOk term en
     rw [gridColumns]
     simp only [PS.read, e1, e2, isChar_ch]
     rcases hterm with rfl | rfl <;> simp [lexImgO]
-  | some k v t' body hks hrt =>
+  | some k v t' w body hw hwne hks hrt =>
     obtain ⟨afterK, hb, hk, hstop, hrun⟩ := hrt k v t' rfl
     have hlenk : k.length ≤ (encChars k).length := encChars_length_ge k
-    simp only [List.length_cons] at hf
+    simp only [List.length_append] at hf
     have hlb : body.length = (encChars k).length + afterK.length := by rw [hb]; simp
-    have hat' : At p.sc (ws ++ (encChars n ++ (32 :: (encChars k ++ (afterK ++ ending))))) := by
+    have hat' : At p.sc (ws ++ (encChars n ++ (w ++ (encChars k ++ (afterK ++ ending))))) := by
       rw [hb] at hat; simpa using hat
-    obtain ⟨s1, e1, h1, hs1⟩ := lexRead_idW ws hws n hn p.sc _ hat' (Stop_cons (by decide)) hs hs0 fuel (by omega)
-    obtain ⟨s2, e2, h2, hs2⟩ := lexRead_idW [32] blanks_one k hk s1 (afterK ++ ending)
-      (by simpa using h1) (hstop ending after hE) (by simp [hs1]) (fun _ => hs1) fuel (by simp; omega)
+    obtain ⟨s1, e1, h1, hs1⟩ := lexRead_idW ws hws n hn p.sc _ hat' (stop_blanks (by decide) hw hwne _) hs hs0 fuel
+      (by omega)
+    obtain ⟨s2, e2, h2, hs2⟩ := lexRead_idW w hw k hk s1 (afterK ++ ending)
+      h1 (hstop ending after hE) (by simp [hs1]) (fun _ => hs1) fuel (by omega)
     obtain ⟨p3, e3, ht3, h3, hs3⟩ := hrun depth fuel s2 false [] ending after hE h2 hs2 (by omega)
       (by simpa [nestO] using hd)
     have hdict : dictOf (lexImgT (.cons k v t')).toList = lexImgT (.cons k v t') :=
@@ -96,34 +106,35 @@ theorem ColsOkW.firstW {cols : Cols} {cl : List UInt8} (h : ColsOkW cols cl) (tl
 
 /-- **the column line** -/
 theorem gridColumnsW {cols : Cols} {cl : List UInt8} (hok : ColsOkW cols cl) :
-    ∀ (depth fuel : Nat) (p : PS) (acc : List (List Char × OTags)) (rest nl ws : List UInt8), Nl nl → Blanks ws →
-    At p.sc (ws ++ (cl ++ (nl ++ rest))) → p.sc.stash.length ≤ 1 → (ws = [] → p.sc.stash = []) →
-    4 * cl.length + ws.length + 24 ≤ fuel → depth + nestC cols ≤ 64 →
+    ∀ (depth fuel : Nat) (p : PS) (acc : List (List Char × OTags)) (rest nl w2 ws : List UInt8), Nl nl → Blanks w2 →
+    NoLF nl rest → Blanks ws →
+    At p.sc (ws ++ (cl ++ (w2 ++ (nl ++ rest)))) → p.sc.stash.length ≤ 1 → (ws = [] → p.sc.stash = []) →
+    4 * cl.length + ws.length + w2.length + 24 ≤ fuel → depth + nestC cols ≤ 64 →
     ∃ p', gridColumns fuel depth p acc = .ok (acc ++ (lexImgC cols).toList, p') ∧ p'.tok = .ch 10 ∧
       At p'.sc rest ∧ p'.sc.stash = [] := by
   induction hok with
   | one n md m hn hm =>
-    intro depth fuel p acc rest nl ws hnl hws hat hs hs0 hf hd
+    intro depth fuel p acc rest nl w2 ws hnl hw2 hcr hws hat hs hs0 hf hd
     simp only [nestC] at hd
     simp only [List.length_append] at hf
     have hnl2 : nl.length ≤ 2 := by cases hnl <;> simp
     obtain ⟨f, rfl⟩ : ∃ f, fuel = f + 1 := ⟨fuel - 1, by omega⟩
-    obtain ⟨p3, ht3, h3, hs3, e⟩ := col_stepW (EndOk.nl nl rest hnl) (Or.inr rfl) n md m hn hm depth f p ws hws
+    obtain ⟨p3, ht3, h3, hs3, e⟩ := col_stepW (EndOk.nl w2 nl rest hw2 hnl hcr) (Or.inr rfl) n md m hn hm depth f p ws hws
       (by simpa using hat) hs hs0 (fun h => absurd h (by decide)) (by simp only [List.length_append]; omega) (by omega)
     refine ⟨p3, ?_, ht3, h3, hs3⟩
     rw [e acc]
     simp [lexImgC, Cols.toList]
   | cons n md n2 md2 c m w restc hn hm hw t ih =>
-    intro depth fuel p acc rest nl ws hnl hws hat hs hs0 hf hd
+    intro depth fuel p acc rest nl w2 ws hnl hw2 hcr hws hat hs hs0 hf hd
     simp only [nestC] at hd
     simp only [List.length_append, List.length_cons] at hf
     obtain ⟨f, rfl⟩ : ∃ f, fuel = f + 1 := ⟨fuel - 1, by omega⟩
-    have hne : w ++ (restc ++ (nl ++ rest)) ≠ [] := by
+    have hne : w ++ (restc ++ (w2 ++ (nl ++ rest))) ≠ [] := by
       obtain ⟨b, r, e, _⟩ := nl_head hnl rest
       rw [e]; simp
-    obtain ⟨p3, ht3, h3, hs3, e⟩ := col_stepW (EndOk.comma (w ++ (restc ++ (nl ++ rest)))) (Or.inl rfl) n md m hn hm
+    obtain ⟨p3, ht3, h3, hs3, e⟩ := col_stepW (EndOk.comma (w ++ (restc ++ (w2 ++ (nl ++ rest))))) (Or.inl rfl) n md m hn hm
       depth f p ws hws (by simpa using hat) hs hs0 (fun _ => hne) (by simp only [List.length_cons]; omega) (by omega)
-    obtain ⟨p', e', ht', h', hs'⟩ := ih depth f p3 (acc ++ [(n, lexImgO md)]) rest nl w hnl hw h3 (by simp [hs3])
+    obtain ⟨p', e', ht', h', hs'⟩ := ih depth f p3 (acc ++ [(n, lexImgO md)]) rest nl w2 w hnl hw2 hcr hw h3 (by simp [hs3])
       (fun _ => hs3) (by omega) (by simp only [nestC]; omega)
     refine ⟨p', ?_, ht', h', hs'⟩
     rw [e acc]
